@@ -13,7 +13,13 @@ use std::sync::Mutex;
 pub struct Rng(pub u64);
 impl Rng {
 	pub fn new(seed: u64) -> Self {
-		Rng(seed.wrapping_mul(0x9E3779B97F4A7C15).wrapping_add(0x1234_5678_9ABC_DEF1))
+		// The state is a SplitMix64 counter: seeds must not map to neighbouring counter values, or the streams of
+		// VERIF_SEED = 0, 1, 2 .. are the same stream shifted by one draw (and re-synchronise after a few
+		// variable-length draws).  Hash the seed first.
+		let mut z = seed.wrapping_add(0x1234_5678_9ABC_DEF1).wrapping_mul(0x9E3779B97F4A7C15);
+		z = (z ^ (z >> 32)).wrapping_mul(0xD6E8FEB86659FD93);
+		z = (z ^ (z >> 32)).wrapping_mul(0xD6E8FEB86659FD93);
+		Rng(z ^ (z >> 32))
 	}
 	pub fn next(&mut self) -> u64 {
 		self.0 = self.0.wrapping_add(0x9E3779B97F4A7C15);
